@@ -149,6 +149,12 @@ def run(chk, prog):
             r = ev.eval_fn(fn, ci.module, ci)
             where = f"{ci.module.rel}:{fn.lineno}"
             inst = f"{ci.name}.{meth}"
+            # annotations are enforced at run time (beartype): the interpreter hands every primitive a LIST of duals, so a narrower annotation of dual_tree
+            # (tuple[...]) makes the primitive unusable
+            for a_ in fn.args.args:
+                if a_.arg == "dual_tree" and a_.annotation is not None:
+                    an = ast.unparse(a_.annotation)
+                    chk.require(an in ("DualTree", "Any"), "ANNOT-ACCEPT", f"{inst}/dual_tree", "annotation of dual_tree", derived=an, expected="DualTree (the interpreter passes a list of Dual leaves)", where=where)
             full = ("tuple", tuple([r.ret] + [e for e in r.env.get("__effects__", [])]))
             n_role += role_tangent(chk, inst, full, where)
             if meth == "jvp_estimate":
@@ -263,8 +269,10 @@ def run(chk, prog):
             P1, Q1 = {frozenset([P("$p")]): 1}, {frozenset(): 1, frozenset([P("$p")]): -1}
             order = [y[1] for y in outs[0][2][0][1]]
             okq = (order == [True, False] and w0 == P1 and w1 == Q1) or (order == [False, True] and w0 == Q1 and w1 == P1)
-            okq = okq and is_call(bodyq, "sum") and lin(bodyq[2][0]) == {frozenset([arrs[0], P("$ret")]): 1}
-    chk.require(bool(okq), "ENUM-WEIGHTS", "FlipEnumParallel.jvp_estimate/weights", "exact expectation over [True, False]", derived=derq, expected="sum([p, 1 - p] * K([True, False]))", where=w)
+            # the weights are contracted with the OUTCOME axis (axis 0) of the stacked continuation values only: jnp.sum(w * ret) also sums over the axes of a
+            # non-scalar continuation value (and broadcasts w against its last axis)
+            okq = okq and is_call(bodyq, "tensordot") and bodyq[2][:2] == (arrs[0], P("$ret")) and (dict(bodyq[3]).get("axes") == C(1) or (len(bodyq[2]) > 2 and bodyq[2][2] == C(1)))
+    chk.require(bool(okq), "ENUM-WEIGHTS", "FlipEnumParallel.jvp_estimate/weights", "exact expectation over [True, False]", derived=derq, expected="tensordot([p, 1 - p], K([True, False]), axes=1) - weights contracted with the outcome axis only", where=w)
     # enumeration weights agree with the sampler's parameter role
     for cn in ("FlipEnumParallel", "CategoricalEnumParallel"):
         ci = prog.cls(cn, PRIM)
@@ -289,7 +297,8 @@ def run(chk, prog):
         chk.require(bool(ok), "ENUM-WEIGHTS", f"{cn}.jvp_estimate", "softmax(probs)" if cn.startswith("Categorical") else "weights",
                     derived=f"sampler passes the parameter as `{role_kw}=`; weights computed as {der}", expected="weights use the parameter in the same role: probs= -> the probabilities themselves", where=w)
     # reparameterised Gaussians: one independent unit-normal draw per coordinate, from the split-off sub key; result loc + scale * eps
-    for cn, shape_pred, exp in (("NormalREPARAM", lambda s_: True, "eps ~ N(0, 1)"),
+    _shape_of_params = lambda s_: dict(s_[3]).get("sample_shape") is not None and mentions_any(dict(s_[3])["sample_shape"], lambda x: is_call(x, "shape") or (is_t(x, "attr") and x[2] == "shape"))
+    for cn, shape_pred, exp in (("NormalREPARAM", _shape_of_params, "eps ~ N(0, 1) with one independent draw per component: sample_shape from the parameters' (broadcast) shape"),
                                 ("MvNormalDiagREPARAM", lambda s_: dict(s_[3]).get("sample_shape") is not None and mentions_any(dict(s_[3])["sample_shape"], lambda x: is_t(x, "attr") and x[2] == "shape"), "eps ~ N(0, 1) with sample_shape=loc.shape"),
                                 ("MvNormalREPARAM", lambda s_: s_[2] and is_call(s_[2][0], "len"), "eps ~ N(0, 1) with len(mu) draws")):
         ci = prog.cls(cn, PRIM)
@@ -358,8 +367,9 @@ def run(chk, prog):
     oke = is_t(t, "attr") and t[2] == "primal" and is_mcall(t[1], "jvp_estimate") and t[1][2][0] == P("key")
     if oke:
         x = t[1][2][1]
-        oke = is_call(x, "dual_tree") and len(x[2]) == 2 and x[2][0] == P("args") and is_t(x[2][1], "treemap") and x[2][1][2] == (P("args"),) and x[2][1][1] in (C(0.0), C(0))
-    chk.require(bool(oke), "ESTIMATE-DEP", "Expectation.estimate", "the dual tree handed to jvp_estimate carries the VALUES of args", derived=show(t)[:240], expected="self.jvp_estimate(key, Dual.dual_tree(args, zeros)).primal", where=w)
+        # zero tangents with the SHAPE of each argument (scalar 0.0 tangents break every primitive that forwards parameter duals of array arguments to jax.jvp)
+        oke = is_call(x, "dual_tree") and len(x[2]) == 2 and x[2][0] == P("args") and is_t(x[2][1], "treemap") and x[2][1][2] == (P("args"),) and is_call(x[2][1][1], "zeros_like") and x[2][1][1][2] == (("leaf", P("args")),)
+    chk.require(bool(oke), "ESTIMATE-DEP", "Expectation.estimate", "the dual tree handed to jvp_estimate carries the VALUES of args", derived=show(t)[:240], expected="self.jvp_estimate(key, Dual.dual_tree(args, tree_map(zeros_like, args))).primal", where=w)
     m, icj = prog.func("invoke_closed_over_jvp", CORE)
     rj = Evaluator(prog).eval_fn(icj, m)
     t = rj.ret
@@ -427,6 +437,20 @@ def run(chk, prog):
             and is_t(resc[2][1], "index") and resc[2][1][2] == ("sliceobj", ("bin", "+", ("enumidx", EQ), C(1)), C(None), C(None)) and resc[2][3] == ("attr", el, "outvars")
     chk.require(bool(okc_), "CPS-CONT", "eval_jaxpr_iterate_dual._cond_dual_kont", "the cond continuation resumes after this equation in the dual environment", derived=derc_,
                 expected="eval_jaxpr_iterate_dual(key, eqns[eqn_idx + 1:], dual_env, eqn.outvars, duals) - not the primal-only environment", where=whereI)
+    # the cond arm: what runs INSIDE the branches and what runs AFTER the cond must not share a key (a sample in a branch and the next sample after the cond would
+    # draw identical noise: y - theta == x exactly, a biased estimator)
+    cond_calls = [n for n in ast.walk(dual_loop) if isinstance(n, ast.Call) and ast.unparse(n.func).endswith("lax.cond")]
+    okck, derck = False, "no lax.cond call in the dual loop"
+    if len(cond_calls) == 1 and len(cond_calls[0].args) >= 2 and okc_:
+        kb = cond_calls[0].args[-2]
+        kont_key = resc[2][0]
+        splits = [n for n in ast.walk(dual_loop) if isinstance(n, ast.Assign) and isinstance(n.targets[0], ast.Tuple) and isinstance(n.value, ast.Call) and ast.unparse(n.value.func).endswith("random.split")
+                  and all(isinstance(e, ast.Name) for e in n.targets[0].elts)]
+        names = [[e.id for e in sp.targets[0].elts] for sp in splits]
+        derck = f"branches receive `{ast.unparse(kb)}`; the continuation resumes with {show(kont_key)[:60]}"
+        okck = isinstance(kb, ast.Name) and is_t(kont_key, "proj") and is_call(kont_key[1], "split") and any(kb.id in nm and nm.index(kb.id) != kont_key[2] for nm in names)
+    chk.require(bool(okck), "KEY-LINEAR", "eval_jaxpr_iterate_dual/cond-keys", "key shared by the cond's branches and the computation after it", derived=derck,
+                expected="key, branch_key = split(key): branch_key to the branches, key to the continuation", where=whereI)
     # default arm of the dual loop writes Dual(primal_out, tangent_out) to this equation's outvars
     eff = rd.env.get("__effects__", [])
     ow = [e for e in eff if is_call(e, "safe_map") and len(e[2]) == 3 and e[2][1] == ("attr", el, "outvars")]
